@@ -202,7 +202,8 @@ Proof.
       rewrite Ep. cbn [rbind].
       assert (Hf : 0 < IZR (zfact (Z.to_nat (k - 1)))).
       { apply (IZR_lt 0). apply zfact_pos. }
-      rewrite r_div_val by lra. eexists; split; [reflexivity|]. split; [|intros C; lra].
+      unfold ofZc; nr; cbn [rbind].
+      rewrite r_div_val by lra. cbn [on_exn]. eexists; split; [reflexivity|]. split; [|intros C; lra].
       pose proof (exp_pos (- (1 / scale) * x)).
       apply Rmult_le_pos; [apply Rmult_le_pos; [apply Rmult_le_pos|]|]; try lra. left. apply Rinv_0_lt_compat. assumption.
     + eexists; split; [reflexivity|]. split; [lra|reflexivity].
@@ -327,7 +328,7 @@ Proof.
     + apply Z.leb_le in E0, E1.
       destruct (r_pow_nonneg p (IZR k)) as [v1 [P1 H1]]; [lra|apply (IZR_le 0); lia|].
       destruct (r_pow_nonneg (1 - p) (IZR (n - k))) as [v2 [P2 H2]]; [lra|apply (IZR_le 0); lia|].
-      rewrite P1. cbn [rbind]. unfold one; nr. rewrite P2. cbn [rbind].
+      rewrite P1. cbn [rbind]. unfold ofZc, one; nr. cbn [rbind]. rewrite P2. cbn [rbind on_exn].
       eexists; split; [reflexivity|]. split; [|intros [C|C]; lia].
       pose proof (IZR_le 0 _ (zcomb_nonneg n k)). apply Rmult_le_pos; [apply Rmult_le_pos|]; assumption.
     + eexists; split; [reflexivity|]. split; [lra|reflexivity].
@@ -348,8 +349,8 @@ Proof.
     + eexists; split; [reflexivity|]. split; [lra|reflexivity].
   - (* NegBinomial *)
     destruct W as [W1 W2]. destruct (0 <=? k)%Z eqn:E0.
-    + apply Z.leb_le in E0. rewrite r_pow_val by lra. cbn [rbind]. unfold one; nr.
-      rewrite r_pow_val by lra. cbn [rbind].
+    + apply Z.leb_le in E0. rewrite r_pow_val by lra. cbn [rbind]. unfold ofZc, one; nr. cbn [rbind].
+      rewrite r_pow_val by lra. cbn [rbind on_exn].
       eexists; split; [reflexivity|]. split; [|intros C; lia].
       pose proof (IZR_le 0 _ (zcomb_nonneg (s + k - 1) k)).
       pose proof (Rpower_pos p (IZR s)). pose proof (Rpower_pos (1 - p) (IZR k)).
@@ -357,9 +358,9 @@ Proof.
     + eexists; split; [reflexivity|]. split; [lra|reflexivity].
   - (* Poisson *)
     destruct (0 <=? k)%Z eqn:E0.
-    + apply Z.leb_le in E0. rewrite r_pow_val by lra. cbn [rbind].
+    + apply Z.leb_le in E0. rewrite r_pow_val by lra. cbn [rbind]. unfold ofZc; nr. cbn [rbind].
       pose proof (IZR_lt 0 _ (zfact_pos (Z.to_nat k))) as Hf.
-      rewrite r_div_val by lra. eexists; split; [reflexivity|]. split; [|intros C; lia].
+      rewrite r_div_val by lra. cbn [on_exn]. eexists; split; [reflexivity|]. split; [|intros C; lia].
       left. apply Rdiv_lt_0_compat; [|assumption]. apply Rmult_lt_0_compat; [apply exp_pos|apply Rpower_pos].
     + eexists; split; [reflexivity|]. split; [lra|reflexivity].
 Qed.
